@@ -937,7 +937,7 @@ class PinCookieStream(Stream):
 
 CHECK = Check(
     prop="C20",
-    gen=["Debugger", "DebuggerWide", "PyFns_Host", "PyFns_Debug"],
+    gen=["Debugger", "DebuggerWide", "PyFns_Host", "PyFns_Debug", "Http"],
     modules=["WzVerif.Props.C20", "WzVerif.Props.C20T", "WzVerif.Props.C20T2"],
     streams=[HostStream(), PinStream(), SessionStream(), OverlapStream(), GateStream(), PinCookieStream(), PreludeKernels()],
     assumptions=[
@@ -953,7 +953,7 @@ CHECK = Check(
     ],
     trusted_extra=["CPython's idna codec (encodings.idna) - opaque in the model, also used by the host oracle"],
     quick_budget=4000,
-    thorough_budget=12000,
+    thorough_budget=10000,
 )
 
 MANIFEST = {
